@@ -4,4 +4,8 @@ import WowSrp.Model.World
 import WowSrp.Model.Pin
 import WowSrp.Model.Integrity
 import WowSrp.Model.MatrixCard
+import WowSrp.Lemmas.Pratt
+import WowSrp.Lemmas.SrpAlgebra
+import WowSrp.Props.C04
 import WowSrp.Props.C07
+import WowSrp.Props.C13
